@@ -33,6 +33,7 @@ type Action struct {
 	C int    `json:"c,omitempty"` // connection index (accept order); udpw: datagram index
 	N int    `json:"n,omitempty"` // read size
 	P *Pay   `json:"p,omitempty"` // write payload
+	Q *Pay   `json:"q,omitempty"` // what the service refills its write buffer with right after Write returns
 	// filled in while executing
 	udpL, udpR *Addr
 }
@@ -62,6 +63,35 @@ func (r Res) Coq() string {
 	return "RNone"
 }
 
+// refill is what the service's write buffer holds after the write (same length as P).
+func (a Action) refill() []byte {
+	n := len(a.P.Bytes())
+	if a.Q != nil {
+		q := a.Q.Bytes()
+		if len(q) == n {
+			return q
+		}
+	}
+	if a.P.N > 0 {
+		return Pay{S: (a.P.S + 97) % 251, N: n}.Bytes()
+	}
+	q := make([]byte, n)
+	for i, b := range a.P.Bytes() {
+		q[i] = ^b
+	}
+	return q
+}
+
+// degraded: a session has already failed abruptly in this run; keep the remaining waits short
+var degraded bool
+
+func tmo(d time.Duration) time.Duration {
+	if degraded && d > 400*time.Millisecond {
+		return 400 * time.Millisecond
+	}
+	return d
+}
+
 func (a Action) Coq() string {
 	switch a.A {
 	case "send":
@@ -71,11 +101,11 @@ func (a Action) Coq() string {
 	case "park":
 		return fmt.Sprintf("(APark %d %s %s)", a.C, hx.CoqZ(int64(a.N)), a.M.Coq())
 	case "write":
-		return fmt.Sprintf("(AWrite %d %s)", a.C, coqB(a.P.Bytes()))
+		return fmt.Sprintf("(AWrite %d %s %s)", a.C, coqB(a.P.Bytes()), coqB(a.refill()))
 	case "close":
 		return fmt.Sprintf("(AClose %d)", a.C)
 	case "udpw":
-		return fmt.Sprintf("(AUdpW %s %s %s)", a.udpL.Coq(), a.udpR.Coq(), coqB(a.P.Bytes()))
+		return fmt.Sprintf("(AUdpW %s %s %s %s)", a.udpL.Coq(), a.udpR.Coq(), coqB(a.P.Bytes()), coqB(a.refill()))
 	}
 	return "ADisc"
 }
@@ -196,6 +226,8 @@ type session struct {
 	exec     []Action
 	res      []Res
 	hsresp   *Msg
+	wbuf     []byte // the services' write buffer, reused for every Write and refilled right after it
+	rbuf     []byte // the services' read buffer, reused for every Read and overwritten after the result is copied out
 }
 
 func drain(ch chan struct{}) {
@@ -315,7 +347,7 @@ func (s *session) waitDown() {
 	}
 	select {
 	case <-s.e.disc:
-	case <-time.After(3 * time.Second):
+	case <-time.After(tmo(3 * time.Second)):
 	}
 	s.down = true
 }
@@ -399,20 +431,42 @@ func (s *session) accepted(c net.Conn) Res {
 		s.udp = append(s.udp, u)
 		buf := make([]byte, 70000)
 		n, _ := u.Read(buf)
+		got := append([]byte(nil), buf[:n]...)
+		for i := range buf[:n] {
+			buf[i] = 0xA5
+		}
 		l, r := fromNet(u.LocalAddr()), fromNet(u.RemoteAddr())
-		return Res{K: "udpacc", L: &l, R: &r, B: hx.B(buf[:n])}
+		return Res{K: "udpacc", L: &l, R: &r, B: hx.B(got)}
 	}
 	s.tcp = append(s.tcp, c)
 	l, r := fromNet(c.LocalAddr()), fromNet(c.RemoteAddr())
 	return Res{K: "acc", L: &l, R: &r}
 }
 
-func readOnce(c net.Conn, n int, d time.Duration) Res {
-	buf := make([]byte, n)
+// readOnce performs one Read(n bytes) through the services' reusable read buffer; the
+// result is copied out and the buffer overwritten before anything else happens, as a
+// service that reuses its buffer does.
+func (s *session) readOnce(c net.Conn, n int, d time.Duration, own bool) Res {
+	var buf []byte
+	if own {
+		buf = make([]byte, n) // a Read that runs concurrently with others gets its own buffer
+	} else {
+		if len(s.rbuf) < n {
+			s.rbuf = make([]byte, n)
+		}
+		buf = s.rbuf[:n]
+	}
 	c.SetReadDeadline(time.Now().Add(d))
 	k, err := c.Read(buf)
+	var out []byte
+	if k > 0 {
+		out = append(out, buf[:k]...)
+	}
+	for i := range buf {
+		buf[i] = 0xA5
+	}
 	if err == nil {
-		return Res{K: "data", B: hx.B(buf[:k])}
+		return Res{K: "data", B: hx.B(out)}
 	}
 	if err == io.EOF {
 		return Res{K: "eof"}
@@ -423,8 +477,22 @@ func readOnce(c net.Conn, n int, d time.Duration) Res {
 	return Res{K: "panic"}
 }
 
+// writeReused sends p through the services' reusable write buffer and refills the buffer
+// with q as soon as Write has returned: by then the caller owns the buffer again, while
+// the session's sender goroutine has typically not yet marshalled the message.
+func (s *session) writeReused(w io.Writer, p, q []byte) (int, error) {
+	if cap(s.wbuf) < len(p) {
+		s.wbuf = make([]byte, len(p))
+	}
+	buf := s.wbuf[:len(p)]
+	copy(buf, p)
+	n, err := w.Write(buf)
+	copy(buf, q)
+	return n, err
+}
+
 func (s *session) waitFrames() string {
-	deadline := time.Now().Add(3 * time.Second)
+	deadline := time.Now().Add(tmo(2 * time.Second))
 	for {
 		s.mu.Lock()
 		ok := s.nData >= s.writes && s.nUdp >= s.udpw
@@ -476,14 +544,14 @@ func (e *env) run(plan []Action) (exec []Action, res []Res, frames []Msg, hs *Ms
 				return fmt.Sprintf("connection %d was never surfaced", a.C)
 			}
 			s.exec = append(s.exec, a)
-			s.res = append(s.res, readOnce(s.tcp[a.C], a.N, 40*time.Millisecond))
+			s.res = append(s.res, s.readOnce(s.tcp[a.C], a.N, 40*time.Millisecond, false))
 		case "park":
 			if a.C >= len(s.tcp) {
 				return fmt.Sprintf("connection %d was never surfaced", a.C)
 			}
 			ch := make(chan Res, 1)
 			c := s.tcp[a.C]
-			go func() { ch <- readOnce(c, a.N, 120*time.Millisecond) }()
+			go func() { ch <- s.readOnce(c, a.N, 120*time.Millisecond, true) }()
 			time.Sleep(2 * time.Millisecond)
 			s.exec = append(s.exec, a)
 			idx := len(s.res)
@@ -493,7 +561,7 @@ func (e *env) run(plan []Action) (exec []Action, res []Res, frames []Msg, hs *Ms
 			select {
 			case r := <-ch:
 				s.res[idx] = r
-			case <-time.After(2 * time.Second):
+			case <-time.After(tmo(2 * time.Second)):
 				return "a waiting Read returned neither data, EOF nor a timeout"
 			}
 		case "write":
@@ -505,8 +573,8 @@ func (e *env) run(plan []Action) (exec []Action, res []Res, frames []Msg, hs *Ms
 			}
 			s.exec = append(s.exec, a)
 			p := a.P.Bytes()
-			s.tcp[a.C].SetWriteDeadline(time.Now().Add(2 * time.Second))
-			n, err := s.tcp[a.C].Write(p)
+			s.tcp[a.C].SetWriteDeadline(time.Now().Add(tmo(2 * time.Second)))
+			n, err := s.writeReused(s.tcp[a.C], p, a.refill())
 			if err != nil || n != len(p) {
 				s.res = append(s.res, Res{K: "panic"})
 				return fmt.Sprintf("Write on a surfaced connection failed: n=%d err=%v", n, err)
@@ -521,7 +589,14 @@ func (e *env) run(plan []Action) (exec []Action, res []Res, frames []Msg, hs *Ms
 				return fmt.Sprintf("connection %d was never surfaced", a.C)
 			}
 			s.exec = append(s.exec, a)
-			s.tcp[a.C].Close()
+			cd := make(chan struct{})
+			cc := s.tcp[a.C]
+			go func() { cc.Close(); close(cd) }()
+			select {
+			case <-cd:
+			case <-time.After(tmo(2 * time.Second)):
+				return "Close on a surfaced connection does not return"
+			}
 			s.res = append(s.res, Res{K: "none"})
 		case "udpw":
 			if a.C >= len(s.udp) || s.down {
@@ -532,7 +607,7 @@ func (e *env) run(plan []Action) (exec []Action, res []Res, frames []Msg, hs *Ms
 			a.udpL, a.udpR = &l, &r
 			s.exec = append(s.exec, a)
 			p := a.P.Bytes()
-			if n, err := u.Write(p); err != nil || n != len(p) {
+			if n, err := s.writeReused(u, p, a.refill()); err != nil || n != len(p) {
 				s.res = append(s.res, Res{K: "panic"})
 				return fmt.Sprintf("Write on a datagram connection failed: n=%d err=%v", n, err)
 			}
